@@ -964,7 +964,12 @@ class Filterbank(ABC):
         if outfile_name is None:
             outfile_name = f"{self.header.basename}_noZeroDM.fil"
 
-        bpass = self.bandpass(**plan_kwargs).data
+        bpass = self.bandpass(
+            gulp=gulp,
+            start=start,
+            nsamps=nsamps,
+            **plan_kwargs,
+        ).data
         chanwts = bpass / bpass.sum()
         out_ar = np.empty(
             self.header.nsamples * self.header.nchans,
